@@ -57,6 +57,10 @@ type Shape struct {
 	Props      []*Prop
 	Struct     string // "" = map-based object; otherwise the name of a pool struct type
 	Unenforced bool
+	// Typed: where the shape is used as a type (a property's, an item's, a member's), it is built with the typed
+	// constructors - NewTypedObject (every third ID: its Any() view) for a struct-mapped object, NewTypedScopeSchema
+	// for a scope. Entries of a scope's object table are always plain objects.
+	Typed bool
 
 	Disc    string
 	Inlined bool
@@ -208,6 +212,9 @@ func (s *Shape) describe(sb *strings.Builder, depth int) {
 		if s.Struct != "" {
 			sb.WriteString("(struct " + s.Struct + ")")
 		}
+		if s.Typed {
+			sb.WriteString("(typed)")
+		}
 		sb.WriteString("{")
 		for i, p := range s.Props {
 			if i > 0 {
@@ -260,6 +267,9 @@ func (s *Shape) describe(sb *strings.Builder, depth int) {
 		}
 		sb.WriteString(")")
 	case KScope:
+		if s.Typed {
+			sb.WriteString("typed-")
+		}
 		fmt.Fprintf(sb, "scope(root=%s){", s.Root)
 		for i, o := range s.Objects {
 			if i > 0 {
